@@ -73,6 +73,10 @@ def check_net(net, spec):
             dh = h.at[fj] - h.at[tj]
             lam, re = r.at[idx, "lambda"], r.at[idx, "reynolds"]
             tm = (tf + tout) / 2
+            if abs(tf - tout) > 1e-9 and (m < 0 or sections != 1):
+                # given, non-uniform junction temperatures: the law is evaluated per section with interpolated temperatures,
+                # and for flow against the declared direction the reported t_from / t_outlet are not inlet / outlet
+                continue
             if not gas:
                 rho = (float(fluid.get_density(tf)) + float(fluid.get_density(tout))) / 2
                 eta = float(fluid.get_viscosity(tm))
